@@ -66,6 +66,9 @@ func New(t *testing.T, nVal int) *W {
 	w.MintValNumber = nVal
 	w.SetT(t)
 	w.SetupTest()
+	if w.Ctx.BlockTime().Unix() <= 0 {
+		w.Ctx = w.Ctx.WithBlockTime(baseTime) // the test genesis has no block time; modules reject year 1
+	}
 	return w
 }
 
@@ -161,15 +164,27 @@ func Atomic(ctx sdk.Context, f func(sdk.Context) error) (err error) {
 }
 
 // EthTx signs and executes an EVM transaction at keeper level (real interpreter and state DB).
-func (w *W) EthTx(ctx sdk.Context, signer *helpers.Signer, to *common.Address, value *big.Int, gas uint64, data []byte) (*evmtypes.MsgEthereumTxResponse, error) {
+func (w *W) EthTx(ctx sdk.Context, signer *helpers.Signer, to *common.Address, value *big.Int, gas uint64, data []byte) (res *evmtypes.MsgEthereumTxResponse, err error) {
+	// a panic inside a transaction is recovered by baseapp.runTx, which fails the transaction and
+	// discards everything it wrote; a transaction that returns (even with a vm error) is written.
+	cctx, write := ctx.CacheContext()
+	defer func() {
+		if r := recover(); r != nil {
+			res, err = nil, fmt.Errorf("PANIC: %v", r)
+		}
+	}()
 	chainID := w.App.EvmKeeper.ChainID()
-	nonce := w.App.EvmKeeper.GetNonce(ctx, signer.Address())
+	nonce := w.App.EvmKeeper.GetNonce(cctx, signer.Address())
 	tx := evmtypes.NewTx(chainID, nonce, to, value, gas, nil, nil, nil, data, nil)
 	tx.From = signer.Address().Bytes()
 	if err := tx.Sign(ethtypes.LatestSignerForChainID(chainID), signer); err != nil {
 		return nil, err
 	}
-	return w.App.EvmKeeper.EthereumTx(ctx, tx)
+	res, err = w.App.EvmKeeper.EthereumTx(cctx, tx)
+	if err == nil {
+		write()
+	}
+	return res, err
 }
 
 // EthCall is EthTx that reports success as a bool (no error and no vm error).
